@@ -96,7 +96,7 @@ def check_c10(prop, tier):
         # model histories of the level, each followed by every restore path
         cfgr = seq_cfg(work, "mcr", "MCSeq_quick", ["Inv_C01"], subst={"MaxLen": "3" if tier == "quick" else "4"}, emit=True)
         rr = require_ok(tlc("MCSeq", cfgr, work, workers=8, timeout=3000), "history generation")
-        replays = rr["prints"].get("REPLAY", [])
+        replays = rr["prints"].get("EDGE", [])
         cap = 250 if tier == "quick" else 5000
         if len(replays) > cap:
             step = len(replays) // cap + 1
